@@ -82,6 +82,22 @@ class NPFacade:
             return Angle(core._num(a), core._num(b))
         return np.arctan2(a, b)
 
+    def copysign(self, a, b):
+        if isinstance(a, Q) or isinstance(b, Q):
+            mag = abs(a)
+            return mag if b >= 0 else -mag
+        return np.copysign(a, b)
+
+    def sign(self, a):
+        if isinstance(a, Q):
+            return 1 if a > 0 else (-1 if a < 0 else 0)
+        return np.sign(a)
+
+    def floor(self, a):
+        if isinstance(a, Q):
+            return core.CUR.floor(a)
+        return np.floor(a)
+
     def rad2deg(self, x):
         if isinstance(x, Angle):
             return x.scaled(180)
